@@ -54,6 +54,7 @@ def tasks(tier):
             add("typeorder/mirror[Alias,Alias]/outside.both_empty_args", m.t_mirror(k1, k2, "outside", variant="both_empty_args"))
         else:
             add(f"typeorder/mirror[{k1},{k2}]/{'relative' if both else 'outside'}", m.t_mirror(k1, k2, "relative" if both else "outside", unfold=unfold))
+    add("FuncDependentType.__lt__/wildcards", m.t_funcdep_lt)
     add("typeorder/union_above_members/plain_member", m.t_member_clause("union", NOHOOK, "union_above_members"))
     add("typeorder/union_above_members/hooked_member", m.t_member_clause("union", m.TROUBLE, "union_above_members"))
     add("typeorder/intersection_below_members/plain_member", m.t_member_clause("inter", NOHOOK, "intersection_below_members"))
